@@ -245,7 +245,6 @@ pub fn run_c11(tier: Tier) -> i32 {
     }
     let nb = bases.len();
     let mut acc = par_run(&bases, &budget, |(l, tm), acc, _| c11_visit(l, *tm, acc));
-    acc.transitions += 0;
     let meta = RunMeta {
         prop: "C11",
         tier,
@@ -266,8 +265,8 @@ pub fn recheck_c11(case: &Value) -> Vec<String> {
 }
 
 /// fault_enumeration evidence needs `evaluations`; reuse `finish` and patch the counts afterwards
-fn finish_fault(meta: RunMeta, mut acc: Acc, budget: &Budget, re: &dyn Fn(&Value) -> Vec<String>) -> i32 {
-    let evals = acc.observations;
+pub fn finish_fault(meta: RunMeta, mut acc: Acc, budget: &Budget, re: &dyn Fn(&Value) -> Vec<String>) -> i32 {
+    let evals = acc.transitions;
     acc.count("faulted buffers evaluated", evals);
     let prop = meta.prop;
     let code = finish(meta, acc, budget, re);
